@@ -795,7 +795,10 @@ def update_inv_sum_diag(invA: np.ndarray, diagonal: np.ndarray) -> np.ndarray:
                  np.outer(inv_matrix[:, p_index], inv_matrix[p_index, :]))
         return term1 / (1 + p_diagonal_element * p_indexed_element)
 
-    new_inv = invA.copy()
+    # The result must be able to hold the updated values: a real `invA`
+    # with a complex `diagonal` has a complex updated inverse (and an integer
+    # `invA` a floating point one)
+    new_inv = invA.astype(np.result_type(invA, diagonal, np.float64))
     for index, diagonal_element in zip(range(diagonal.size), diagonal):
         indexed_element = new_inv[index, index]
         new_inv -= calc_update_term(new_inv, index, indexed_element,
